@@ -410,9 +410,14 @@ func spec_bd(s string, from int, to int) int { panic("spec") }
 //@ loop 0: decreases len(l.input) - l.end
 //@ loop 0: invariant sent >= old(sent) && allTOKS(l, old(sent))
 
+// the escape rule of a string alias: a backslash takes the rune behind it with it, whatever that rune is - it is consumed
+// and never looked at as the closing quote - and the scan goes on with the rune after that (C11, C12: where an alias ends
+// decides what the rest of the declaration section says)
 //@ func stringKindState
-//@ props C13
+//@ props C13 C11 C12
 //@ results next
+//@ loop 0: end_of_body [C11,C12] at_head(r) == 92 && at_head(l.end) < len(l.input) ==>
+//@     l.end >= at_head(l.end) + rune_width(l.input[at_head(l.end):], 0) + ite(at_head(l.end) + rune_width(l.input[at_head(l.end):], 0) < len(l.input), 1, 0)
 //@ modifies l.start, l.startLoc, l.end, l.width, l.prev, l.loc, sent
 //@ requires wfL(l)
 //@ ensures [C13] stepOK(l, stringKindState, next, old(l.end))
